@@ -74,8 +74,10 @@ func (s *Store) compactMaybe(higher Snapshot,
 
 	var sizeBefore, sizeAfter int64
 
-	if len(slocs) > 0 {
-		mref := slocs[0].mref
+	{
+		// Any segment will do, also one of a child collection when the
+		// top-level collection has none: they all share one file.
+		mref := footer.anyMmapRef()
 		if mref != nil && mref.fref != nil {
 			var finfo os.FileInfo
 			if partialCompactStart == 0 {
